@@ -135,7 +135,7 @@ def seed_histories(check, tier):
         h = [rng.choice(jobs) for _ in range(6)]
         hists.append(h + h[:2])          # repeats inside one process
     events = []
-    for hs in ((0, 1, "random") if tier == "quick" else (0, 1, 2, 3, "random")):
+    for hs in ((0, 1, 2, 3, 5, "random") if tier == "quick" else tuple(range(0, 12)) + ("random",)):
         env = dict(os.environ)
         env["PYTHONHASHSEED"] = str(hs)
         env["PYTHONPATH"] = common.VERIF
